@@ -69,6 +69,11 @@ def run(tier):
     chk.cov['distinct_nontrivial'] = len(decoded)
     kf = {k['key']: k for k in chk.known_findings()}
     # the property itself on the implementation: ambiguity, re-encoding
+    ghost = [(w, i) for w, i in zip(ws, impl) if 'DECODES' in i]
+    if ghost:
+        w, i = ghost[0]
+        chk.violation('the word 0x%08x is claimed by %s class yet decodes: %s (%d such words; the answer depends on the words decoded before it)' % (w, 'no' if not i.split('|')[0] else 'more than one', i, len(ghost)),
+                      dict(case=str(w), impl=i, count=len(ghost), note='run the words of this shard in ascending order to reproduce'))
     amb = [(w, i) for w, i in zip(ws, impl) if ',' in i.split('|')[0]]
     if amb:
         w, i = amb[0]
@@ -84,7 +89,7 @@ def run(tier):
         if key in kf: chk.report_known(key, kf[key]['what'] + ' (%d words in this run)' % len(items)); continue
         w, i = items[0]
         chk.violation('re-encoding the decoded fields of 0x%08x (%s) gives %s (%d words of this class)' % (w, cl, i.split('|')[1], len(items)), dict(case=str(w), impl=i, count=len(items), key=key))
-    mism = [(w, m, i) for w, m, i in zip(ws, model, impl) if m != i]
+    mism = [(w, m, i) for w, m, i in zip(ws, model, impl) if m != i and 'DECODES' not in i]
     if mism and not chk.violations:
         w, m, i = mism[0]
         chk.violation('correspondence Ppc.v vs ppc_arch (check / bin) broken on %d words, e.g. 0x%08x: model %s, impl %s' % (len(mism), w, m, i),
